@@ -189,6 +189,36 @@ Example c05_example :
   /\ occ_stringb [Lit 97; Var 1; Var 1]%N [98; 97; 99; 99; 97; 98; 98]%N 2 = false.
 Proof. repeat split; vm_compute; reflexivity. Qed.
 
+(** ** the text front end of the two pattern types (beyond the property: the glue in
+    front of the baselines).  Model/Parse.v models StringPattern::parse_str and
+    MatrixPattern::parse_str; both are compared with the implementation through
+    try_to_constraint_vec on random texts (case kind [parse]).  Printing and parsing
+    are inverse to each other; the only text that fails to parse as a string pattern
+    ends in a '$' (the implementation panics there). *)
+From PM Require Import Model.Parse Proofs.ParseProofs.
+
+Theorem c05_string_parse_print :
+  forall p : spattern, (forall c, In (Lit c) p -> c <> c_dollar) -> s_parse (s_print p) = Ok p.
+Proof. exact s_parse_print. Qed.
+
+Theorem c05_string_print_parse :
+  forall (l : list N) (p : spattern), s_parse l = Ok p -> s_print p = l.
+Proof. intros l p. exact (s_print_parse (length l) l p (le_n _)). Qed.
+
+Theorem c05_string_parse_fails_only_on_trailing_dollar :
+  forall l : list N, (exists p, s_parse l = Ok p) \/ (exists l0, l = l0 ++ [c_dollar]).
+Proof. intros l. exact (s_parse_total (length l) l (le_n _)). Qed.
+
+Theorem c05_matrix_parse_print :
+  forall p : mpattern,
+    (forall row cv, In row p -> In (Some cv) row ->
+       match cv with
+       | Lit c => c <> c_dollar /\ c <> c_dash /\ is_whitespace c = false
+       | Var v => is_whitespace v = false
+       end) ->
+    m_parse (m_print p) = Ok p.
+Proof. exact m_parse_print. Qed.
+
 Print Assumptions c05_string_single_sound_partial.
 Print Assumptions c05_matrix_single_sound_partial.
 Print Assumptions c05_string_match_exists_sound.
@@ -205,3 +235,7 @@ Print Assumptions c05_portgraph_single_reports_embeddings_of_good_patterns.
 Print Assumptions c05_portgraph_single_reports_embeddings_total.
 Print Assumptions c05_portgraph_complete_refuted_line_through_root.
 Print Assumptions c05_portgraph_complete_refuted_root_hidden.
+Print Assumptions c05_string_parse_print.
+Print Assumptions c05_string_print_parse.
+Print Assumptions c05_string_parse_fails_only_on_trailing_dollar.
+Print Assumptions c05_matrix_parse_print.
